@@ -18,7 +18,7 @@ RULE += ('; also: values with an unusual == (equal to everything / no truth valu
 ASSUMPTIONS = ['arguments are JSON-representable values (so equality after a pickle round trip is value equality), plus two resume values with an unusual == '
                '(equal to anything; == without a truth value) compared by their repr',
                'reference interpreter written from the property statement']
-REQUIRED = ['paused_hook_checkpoints', 'exit_window_restores', 'resume_with_pause', 'mutating_chains', 'continuations', 'kwargs_checked', 'resume_with_value', 'resume_without_value', 'restored_runs', 'terminal/finished', 'terminal/killed',
+REQUIRED = ['subclassed_commands', 'paused_hook_checkpoints', 'exit_window_restores', 'resume_with_pause', 'mutating_chains', 'continuations', 'kwargs_checked', 'resume_with_value', 'resume_without_value', 'restored_runs', 'terminal/finished', 'terminal/killed',
             'terminal/excepted', 'unsuccessful']
 BOUNDS = {'quick': 'all 2-command chains over the shape alphabet + 300 random chains of length 3-4; restore: all boundaries at once and each singly',
           'thorough': '3000 random chains, every subset of <=2 boundaries'}
@@ -63,6 +63,8 @@ def gen_cases(tier, seed):
         if ci % 2 and any(isinstance(v, (list, dict)) for st in prog['steps'] if st['ret'][0] == 'cont'
                           for v in list(st['ret'][1]) + list(st['ret'][2].values())):
             prog = dict(prog, mutate_args=True)  # steps mutate their mutable arguments in place
+        if ci % 3 == 2:
+            prog = dict(prog, own_commands=True)  # the steps return instances of the program's own subclasses of Continue / Wait / Stop / Kill
         nb = len(prog['steps']) + sum(1 for s in prog['steps'] if s['ret'][0] == 'wait')  # boundaries: one RUNNING per step + one WAITING per wait
         crash_sets = [[]] + [[b] for b in range(nb)] + [list(range(nb))]
         if tier == 'thorough':
@@ -100,7 +102,7 @@ def run_case(case):
     r = persist.run_with_crashes(lambda loop: cls(loop=loop), case['crash'], resume_for_wait, resume_mode=case.get('resume_mode', 'plain'),
                                  exit_crashes=() if xc is None else (xc,), paused_crashes=() if case.get('paused_crash') is None else (case['paused_crash'],))
     obs = {'continuations': 0, 'kwargs_checked': 0, 'resume_with_value': 0, 'resume_without_value': 0, 'restored_runs': 0, 'terminal': {},
-           'unsuccessful': 0, 'resume_with_pause': int(bool(case.get('resume_mode'))), 'paused_hook_checkpoints': 0}
+           'unsuccessful': 0, 'resume_with_pause': int(bool(case.get('resume_mode'))), 'paused_hook_checkpoints': 0, 'subclassed_commands': int(bool(prog.get('own_commands')))}
     if r.get('inconclusive'):
         return {'viol': [], 'obs': obs, 'inconclusive': r['inconclusive'], 'key': [prog, case['crash'], case.get('resume_mode'), case.get('exit_crash'), case.get('paused_crash')], 'nontrivial': False}
     exp = programs.expected_run(prog, [(has, programs._jsonable(programs.special(val))) for has, val in resumes])
